@@ -89,6 +89,12 @@ class SimFS(FS):
         # top of what openbin returns when buffering is -1, and a TextIOWrapper
         # does not retry partial raw writes.
         size = buffering if buffering and buffering > 0 else io.DEFAULT_BUFFER_SIZE
+        if m == "r" and getattr(self.disk, "raw_readers", False):
+            # buggify: a PyFilesystem whose binary read streams are raw (network-style):
+            # read(n) may return fewer bytes than asked for before end of file.  Text mode
+            # copes (TextIOWrapper reads with read1 semantics); only readers are raw.
+            self.disk.buggify["raw_reader"] = self.disk.buggify.get("raw_reader", 0) + 1
+            return raw
         buf = io.BufferedWriter(raw, size) if m == "w" else io.BufferedReader(raw, size)
         return buf
 
